@@ -69,7 +69,7 @@ func TestC19(t *testing.T) {
 		}
 		runCase(t, r, i)
 	}
-	r.Require("handles_taken_during_a_failing_updater_build", "incarnations_without_lookup", "drops_observed", "kept_declared", "kept_fresh", "kept_pinned", "kept_no_expiry_age", "restarts", "polls", "reads", "payloads_checked", "kept_exactly_at_age", "handle_grabbed_during_poll_of_stale_secret", "racing_lookups", "polls_with_not_found", "reads_through_struct_fields", "lookups_during_a_poll_cache_write")
+	r.Require("polls_whose_cache_write_failed", "handles_taken_during_a_failing_updater_build", "incarnations_without_lookup", "drops_observed", "kept_declared", "kept_fresh", "kept_pinned", "kept_no_expiry_age", "restarts", "polls", "reads", "payloads_checked", "kept_exactly_at_age", "handle_grabbed_during_poll_of_stale_secret", "racing_lookups", "polls_with_not_found", "reads_through_struct_fields", "lookups_during_a_poll_cache_write")
 	r.Rule("seeded histories over 2 declarable + 4 undeclared names: a first process started from a crafted cache (last-access stamps incl. 0, stale, fresh, far future), then events {restart from the last payload with a new declared set and expiry age in {0,-1s,1s,1h,30d}; clock jump in {0, age-1s, age, age+1s, 10*age}; read through a handle; obtain a handle without reading; new watcher; lookup; service change; poll}. Distinct = (event kind, expiry-age class, what the poll dropped/kept and why)")
 }
 
@@ -368,6 +368,25 @@ func runCase(t *testing.T, r *evid.Run, idx int) {
 				svc.Remove(pick)
 				gone[pick] = true
 				ev = "service-forgets " + pick
+			case x == 12 && len(gone) == 0 && rng.IntN(2) == 0: // a poll with something to write while the cache cannot be written
+				// (only when the rule allows no drop right now: what such a poll drops in memory would otherwise
+				// first show in a payload written by some later event that is not a poll)
+				safe := true
+				for _, s := range m {
+					if s.present && !s.declared && age > 0 && !s.pinned && (s.lastAccess == 0 || time.Duration(now-s.lastAccess)*time.Second > age) {
+						safe = false
+					}
+				}
+				if !safe {
+					continue
+				}
+				ver[pick]++
+				svc.Set(pick, ver[pick], valueOf(idx, pick, ver[pick]))
+				cache.WriteErr = func(int) error { return errors.New("injected: no space left on device") }
+				st.Refresh(context.Background()) // (reports the cache fault)
+				cache.WriteErr = nil
+				r.Count("polls_whose_cache_write_failed", 1)
+				ev = "poll with a failing cache write, after service-change " + pick
 			case x < 13: // service change (forces a cache write at the next poll)
 				delete(gone, pick)
 				ver[pick]++
